@@ -238,6 +238,90 @@ def kill_pool(ex):
         pass
 
 
+# ------------------------------------------------------------------------------------------------ write gate (fault operator)
+GATE = {"gate": None}
+
+
+class DumpGate:
+    """Lines up the worker THREADS of one process that are inside the write step of a storage dump (`cloudpickle.dump(obj, file)`:
+    the scratch file is open, nothing is published yet).  Every arriving writer is held — once before it writes ("pre": all scratch
+    files open, none written) and once after ("post": all written, none renamed into place) — until `parties` writers are held or
+    no further writer has arrived for `quiet` seconds (never longer than `max_hold`).  The held interleaving is one the OS scheduler
+    may produce by itself: k tasks of a generation complete at the same moment.  The parent thread and bodies run by the permuting
+    executor are never held.  `waves` records, per released group, the phase and the names of the files the writers had open."""
+
+    def __init__(self, parties: int, quiet: float = 0.02, max_hold: float = 0.5):
+        self.parties, self.quiet, self.max_hold = max(2, int(parties)), quiet, max_hold
+        self.cond = threading.Condition()
+        self.wave = {"pre": 0, "post": 0}
+        self.waiting = {"pre": [], "post": []}
+        self.last = {"pre": 0.0, "post": 0.0}
+        self.waves: list = []
+        self.owner = threading.get_ident()
+        self.closed = False
+
+    def _release(self, phase):
+        self.waves.append([phase, list(self.waiting[phase])])
+        self.waiting[phase] = []
+        self.wave[phase] += 1
+        self.cond.notify_all()
+
+    def hold(self, phase, name):
+        if self.closed or threading.get_ident() == self.owner or in_body():
+            return
+        with self.cond:
+            w = self.wave[phase]
+            self.waiting[phase].append(name)
+            self.last[phase] = t0 = time.monotonic()
+            if len(self.waiting[phase]) >= self.parties:
+                self._release(phase)
+                return
+            self.cond.notify_all()            # the others re-compute their quiet period
+            while self.wave[phase] == w and not self.closed:
+                now = time.monotonic()
+                until = min(self.last[phase] + self.quiet, t0 + self.max_hold)
+                if now >= until:
+                    self._release(phase)
+                    break
+                self.cond.wait(until - now)
+
+    def close(self):
+        with self.cond:
+            self.closed = True
+            self.cond.notify_all()
+
+    def summary(self):
+        """{"waves": number of released groups, "max": largest group, "shared": scratch files two writers of one group had open}."""
+        shared = sorted({os.path.basename(str(n)) for _, names in self.waves for n in names if n is not None and names.count(n) > 1})
+        return {"waves": len(self.waves), "max": max([len(n) for _, n in self.waves] or [0]), "shared": shared}
+
+
+def install_gate_hook():
+    """Wrap `cloudpickle.dump` (the file-writing entry; `dumps` is untouched) once per process.  Without an active gate it is the original."""
+    import cloudpickle
+
+    if getattr(cloudpickle.dump, "_c03gate", False):
+        return
+    orig = cloudpickle.dump
+
+    def dump(obj, file, *a, **k):
+        g = GATE["gate"]
+        if g is None:
+            return orig(obj, file, *a, **k)
+        name = getattr(file, "name", None)
+        g.hold("pre", name)
+        r = orig(obj, file, *a, **k)
+        try:
+            file.flush()
+        except Exception:  # noqa: BLE001
+            pass
+        g.hold("post", name)
+        return r
+
+    dump._c03gate = True
+    cloudpickle.dump = dump
+
+
 def now_ms() -> int:
     return int(time.time() * 1000)
 
